@@ -51,6 +51,13 @@ def build_orch(rng, tier):
     for k in ('rebuild', 'noDeps'):
         if rng.random() < 0.4:
             scn['options'][k] = True
+    # a requested module may live in a file named unlike the module (mibdump /path/vendor.mib)
+    imported = set(d for v in g.values() for d in v)
+    for r in list(scn['requested']):
+        if r not in imported and rng.random() < 0.3:
+            alias = r.lower().replace('-mib', '-file')
+            scn['files'][alias] = [r]
+            scn['requested'][scn['requested'].index(r)] = alias
     if rng.random() < 0.15:
         scn['options']['ignoreErrors'] = True
     if rng.random() < 0.15:
@@ -75,6 +82,8 @@ def case_orch(idx, rng, tier, res):
     nfresh = len([e for e in evs if e.get('answer') == 'fresh'])
     res.count('fresh_answers', nfresh)
     res.count('orch_scenarios')
+    if scn['files']:
+        res.count('alias_file_scenarios')
     res.cell('A:rebuild=%s,noDeps=%s' % (bool(scn['options'].get('rebuild')), bool(scn['options'].get('noDeps'))),
              'A:searchers=%d' % len(scn['searchers']))
     res.sig = harness.stable_hash(scn)
